@@ -480,3 +480,79 @@ contract('StochasticGame.solve', fields_override=C09_FIELDS, heap=SG_HEAP + NODE
          raises=dict(exc=['ValueError'], when=["not (" + " and ".join(f"({c})" for c in WF_ALL) + ")"], ensures=[]),
          modifies={f: ["_o >= alloc_o()"] for f in NODE_HEAP},
          props=['C09', 'C12'])
+
+# ------------------------------------------------------------------ reward node steps (C02, C14)
+R3 = TUP(REAL, REAL, REAL)
+ER_NN = "forall(t, 0, len(state_list), ER[state_list[t]] >= 0)"
+LEN_ = "len(self.next_states)"
+
+
+def at_succ(X, k):           # X of the successor at position k of self's list
+    return f"{X}[state_list[lcontent(self.next_states)[{k}][1]]]"
+
+
+contract('ProbabilisticNode.value_iteration_rewards', slot0='prob',
+         params={'self': REF('ProbabilisticNode'), 'state_list': SLT}, result=R3,
+         locals={'value': REAL, 'expected_rewards_min_reach': REAL, 'expected_reach_min_rewards': REAL, '_next_state': NODE},
+         requires=[SUCC_IN_RANGE, "cls(self) == 0"], modifies={},
+         ensures=[f"result[0] == BW(cls(self), self.reward, {NS_}, state_list, ER)",
+                  f"implies({LEN_} == 0, result[1] == 0 and result[2] == 0)",
+                  f"implies({LEN_} > 0, result[1] == self.reward + SumS({NS_}, state_list, EMR, {LEN_}) and result[2] == SumS({NS_}, state_list, ERM, {LEN_}))"],
+         loops={0: dict(inv=[f"value == self.reward + SumS({NS_}, state_list, ER, _i)", f"expected_rewards_min_reach == self.reward + SumS({NS_}, state_list, EMR, _i)",
+                             f"expected_reach_min_rewards == SumS({NS_}, state_list, ERM, _i)", f"{LEN_} > 0"])},
+         props=['C02', 'C14', 'C05', 'C06', 'C13'])
+contract('PlayerOne.value_iteration_rewards', slot0='lab',
+         params={'self': REF('PlayerOne'), 'state_list': SLT}, result=R3,
+         locals={'max_rewards': REAL, 'next_state_exp_rewards': REAL, 'max_next_state': TRANS, 'next_state': TRANS,
+                 'expected_rewards_min_reach': REAL, 'expected_reach_min_rewards': REAL},
+         requires=[SUCC_IN_RANGE, "cls(self) == 1", ER_NN], modifies={},
+         ensures=[f"result[0] == BW(cls(self), self.reward, {NS_}, state_list, ER)",
+                  f"implies({LEN_} == 0, result[1] == 0 and result[2] == 0)",
+                  # the diagnostics follow the LAST successor attaining the maximal expected reward
+                  f"implies({LEN_} > 0, result[1] == self.reward + {at_succ('EMR', f'LastMax({NS_}, state_list, ER, {LEN_})')} and result[2] == {at_succ('ERM', f'LastMax({NS_}, state_list, ER, {LEN_})')})"],
+         loops={0: dict(inv=[f"max_rewards == MaxS({NS_}, state_list, ER, _i)", f"{LEN_} > 0",
+                             f"implies(_i >= 1, bound(max_next_state) and 0 <= LastMax({NS_}, state_list, ER, _i) and LastMax({NS_}, state_list, ER, _i) < _i"
+                             f" and max_next_state == lcontent(self.next_states)[LastMax({NS_}, state_list, ER, _i)])"])},
+         props=['C02', 'C14', 'C05', 'C06', 'C13'])
+STRAT_OF_SELF = "forall(q, 0, len(strategies), exists(k, 0, len(self.next_states), lab(lcontent(self.next_states)[k]) == strategies[q]))"
+contract('PlayerTwo._expected_rewards_min_reach', slot0='lab',
+         params={'self': REF('PlayerTwo'), 'state_list': SLT, 'strategies': LSTR}, result=REAL,
+         locals={'first_n_state': TRANS, 'min_rewards': REAL, 'next_state_exp_rewards': REAL, 'next_state': TRANS},
+         requires=[SUCC_IN_RANGE, "cls(self) == 2", STRAT_OF_SELF], modifies={},
+         ensures=["implies(len(strategies) == 0, result == 0)",
+                  # the cheapest (by the 'rewards under minimal reachability' vector) among the listed actions
+                  f"implies(len(strategies) > 0, exists(k, 0, {LEN_}, lab(lcontent(self.next_states)[k]) in strategies and result == self.reward + {at_succ('EMR', 'k')}))",
+                  f"implies(len(strategies) > 0, forall(k, 0, {LEN_}, implies(lab(lcontent(self.next_states)[k]) in strategies, result <= self.reward + {at_succ('EMR', 'k')})))"],
+         comps={0: dict(type=NS, **{'is': f"FilterIn({NS_}, strategies, _n)"})},
+         ghost_after_comp={0: 'FIN'},
+         hint_after_comp={0: dict(hints=["len(FIN) > 0", f"exists(k, 0, {LEN_}, lab(lcontent(self.next_states)[k]) in strategies and FIN[0] == lcontent(self.next_states)[k])"],
+                                  use={0: [f"L_FilterIn_first({NS_}, strategies, {LEN_})"], 1: [f"L_FilterIn_first({NS_}, strategies, {LEN_})"]})},
+         loops={0: dict(inv=[f"min_rewards == MinSel({NS_}, state_list, EMR, strategies, _i, INIT)"], ghost_init=[('INIT', REAL, 'min_rewards')])},
+         use_post={1: [f"L_MinSel_is_min({NS_}, state_list, EMR, strategies, {LEN_}, INIT)"], 2: [f"L_MinSel_is_min({NS_}, state_list, EMR, strategies, {LEN_}, INIT)"]},
+         props=['C14', 'C02', 'C06', 'C13'])
+
+WORST = f"ArgEqR({NS_}, state_list, RP, {LEN_}, MinR({NS_}, state_list, RP, {LEN_}))"
+contract('PlayerTwo.value_iteration_rewards', slot0='lab',
+         params={'self': REF('PlayerTwo'), 'state_list': SLT}, result=R3,
+         locals={'reachability_strategies': LSTR, 'expected_rewards_min_reach': REAL, 'min_rewards': REAL, 'next_state_exp_rewards': REAL,
+                 'min_next_state': TRANS, 'next_state': TRANS, 'expected_reach_min_rewards': REAL},
+         requires=[SUCC_IN_RANGE, "cls(self) == 2", RP01], modifies={}, use_axioms=['round6'],
+         ensures=[f"result[0] == BW(cls(self), self.reward, {NS_}, state_list, ER)",
+                  f"implies({LEN_} == 0, result[1] == 0 and result[2] == 0)",
+                  f"implies({LEN_} > 0, result[2] == {at_succ('ERM', f'LastMin({NS_}, state_list, ER, {LEN_})')})",
+                  # 'rewards under minimal reachability': Player 2 plays its reachability strategy, the cheapest of several
+                  f"implies({LEN_} > 0 and len({WORST}) == 0, result[1] == 0)",
+                  f"implies({LEN_} > 0 and len({WORST}) > 0, exists(k, 0, {LEN_}, lab(lcontent(self.next_states)[k]) in {WORST} and result[1] == self.reward + {at_succ('EMR', 'k')}))",
+                  f"implies({LEN_} > 0 and len({WORST}) > 0, forall(k, 0, {LEN_}, implies(lab(lcontent(self.next_states)[k]) in {WORST}, result[1] <= self.reward + {at_succ('EMR', 'k')})))"],
+         after_call={'PlayerTwo.get_worst_strategies_reachability': dict(
+             hints=["forall(q, 0, len(reachability_strategies), exists(k, 0, len(self.next_states), lab(lcontent(self.next_states)[k]) == reachability_strategies[q]))"],
+             use={0: [f"L_ArgEqR_from({NS_}, state_list, RP, {LEN_}, MinR({NS_}, state_list, RP, {LEN_}))"]})},
+         loops={0: dict(inv=[f"min_rewards == MinW0({NS_}, state_list, ER, _i)", f"{LEN_} > 0",
+                             f"implies(_i >= 1, bound(min_next_state) and 0 <= LastMin({NS_}, state_list, ER, _i) and LastMin({NS_}, state_list, ER, _i) < _i"
+                             f" and min_next_state == lcontent(self.next_states)[LastMin({NS_}, state_list, ER, _i)])"])},
+         props=['C02', 'C14', 'C05', 'C06', 'C13'])
+contract('Node.value_iteration_rewards', virtual=True, implementations=['ProbabilisticNode', 'PlayerOne', 'PlayerTwo'],
+         params={'self': NODE, 'state_list': SLT}, result=R3,
+         requires=[SUCC_IN_RANGE, "0 <= cls(self) and cls(self) <= 2", RP01, ER_NN], modifies={},
+         ensures=[f"result[0] == BW(cls(self), self.reward, {NS_}, state_list, ER)"],
+         props=['C02', 'C14', 'C05', 'C06', 'C13'])
